@@ -17,7 +17,26 @@ BACKENDS = {
     "plain": [],  # the default build of the test-suite: no NFL_OPTIMIZED at all
     "sse": ["-DNFL_OPTIMIZED", "-DNTT_SSE", "-msse4.2"],
     "avx2": ["-DNFL_OPTIMIZED", "-DNTT_AVX2", "-mavx2"],
+    # what `cmake -DNFL_OPTIMIZED=ON` builds on this machine (CMakeLists.txt: -march=native, NTT_AVX2 when <immintrin.h> compiles):
+    # the AVX2 kernels compiled with every ISA extension of the host enabled (AVX-512VL, BMI2, … change which #if branches
+    # and which instruction selections are live)
+    "native": ["-DNFL_OPTIMIZED", "-DNTT_AVX2", "-march=native"],
 }
+
+_SIMD = None
+
+
+def simd_backends():
+    """("sse", "avx2") plus "native" when -march=native enables AVX2 and more than -mavx2 does on this host"""
+    global _SIMD
+    if _SIMD is None:
+        def macros(flag):
+            r = subprocess.run("g++ %s -dM -E - </dev/null" % flag, shell=True, capture_output=True, text=True)
+            return {l.split()[1] for l in r.stdout.splitlines() if l.startswith("#define __") and
+                    re.match(r"#define __(AVX|SSE|BMI|FMA|ADX|LZCNT|POPCNT|VAES|VPCLMUL|GFNI|SHA)", l)}
+        nat, avx2 = macros("-march=native"), macros("-mavx2")
+        _SIMD = ("sse", "avx2") + (("native",) if "__AVX2__" in nat and nat - avx2 else ())
+    return _SIMD
 
 
 def log(*a):
